@@ -5,6 +5,7 @@ import SimbodyModel.C08
       computed by `C08.loopFD` at `Float`; `minv` = dense LU with partial pivoting of the exported
       mass matrix, `pinv` = Gaussian elimination with complete pivoting, pivots below `1e-9·max` dropped (free
       multipliers set to 0) — any solution of the consistent system gives the same `udot`.
+  `I loopFDmask …` → `O loopFDmask 1 udot [λ]`  (`C08.loopFDList`: assembly of the enabled rows by the model, see below).
   `I power n m G(m·n) λ(m) u(n)` → `O power 1 p`   (`C08.power`).
   `I chk …` → `O chk 1`. -/
 open Proto C08
@@ -127,6 +128,31 @@ def doLoopFD (toks : List String) : String :=
     fmtFloats "O loopFD" out
   | _ => "O loopFD ERR"
 
+/-- `I loopFDmask n mfull fullrank mask(mfull × 0/1) M(n·n) Gfull(mfull·n) f(n) bfull(mfull)`: the FULL constraint matrix / bias with all
+constraints enabled plus the row mask; the model assembles the enabled rows itself (`C08.loopFDList`) and must reproduce the
+masked system's `udot` (and `λ` when the masked `G` has full row rank) -/
+def doLoopFDMask (toks : List String) : String :=
+  match toks with
+  | nS :: mS :: frS :: rest =>
+    let n := nS.toNat!; let mf := mS.toNat!; let fullrank := frS.toNat!
+    let en : List Bool := (rest.take mf).map (fun t => t == "1")
+    let fl : Array F := ((rest.drop mf).map hexToFloat).toArray
+    let Ma := fl.extract 0 (n * n)
+    let Ga := fl.extract (n * n) (n * n + mf * n)
+    let fa := fl.extract (n * n + mf * n) (n * n + mf * n + n)
+    let ba := fl.extract (n * n + mf * n + n) (n * n + mf * n + n + mf)
+    let (LU, perm) := luFactor n (flat Ma)
+    let minv : Vec F n → Vec F n := fun x => let a := luSolve n LU perm (ofVec x); toVec a
+    let rows : List (List F) := (List.range mf).map (fun i => (Ga.extract (i * n) (i * n + n)).toList)
+    let pinv : (m : Nat) → Mat F m n → Vec F m → Vec F m := fun m G r =>
+      let Acols : Array (Array F) := (Array.range m).map (fun j =>
+        ofVec (gMinvGt minv G (fun i : Fin m => if i.val == j then 1.0 else 0.0)))
+      let Aflat : FloatArray := flat ((Array.range (m * m)).map (fun k => (Acols[k % m]!)[k / m]!))
+      toVec (solveRankDef m Aflat (ofVec r) 1e-9)
+    let res := loopFDList minv pinv en rows ba.toList (toVec fa)
+    fmtFloats "O loopFDmask" ([1.0] ++ res.1 ++ (if fullrank == 1 then res.2 else []))
+  | _ => "O loopFDmask ERR"
+
 def doPower (toks : List String) : String :=
   match toks with
   | nS :: mS :: rest =>
@@ -145,6 +171,7 @@ def main : IO Unit := do
     match tokens ln with
     | "I" :: "chk" :: _ => out.putStrLn ln.trimAscii.toString; out.putStrLn "O chk 1"
     | "I" :: "loopFD" :: rest => out.putStrLn ln.trimAscii.toString; out.putStrLn (doLoopFD rest)
+    | "I" :: "loopFDmask" :: rest => out.putStrLn ln.trimAscii.toString; out.putStrLn (doLoopFDMask rest)
     | "I" :: "power" :: rest => out.putStrLn ln.trimAscii.toString; out.putStrLn (doPower rest)
     | "I" :: fn :: _ => out.putStrLn ln.trimAscii.toString; out.putStrLn ("O " ++ fn ++ " ERR")
     | _ => pure ()
